@@ -64,6 +64,10 @@ func pkgIdent(s string) string {
 var NestedLayouts = [][]string{
 	{"a", "a/b", "c"}, {"a", "a/b", "a/b/c"}, {"a", "a/b", "a/b/c", "a/d"}, {"p", "p/q", "p/q/r", "p/s", "t"}, {"a", "a/b", "a/b/c", "a/b/c/d"},
 	{"p", "p-x", "p/q", "p/q/r"}, {"a", "a.b", "a/b", "a/b/c", "z"}, {"p", "p-x", "p/q", "p/q/r"},
+	// a path that is a string prefix of a sibling without being its parent
+	{"a", "a/b", "a/bc", "a/b/d"}, {"p", "pq", "p/r", "pq/s"},
+	// more than ten packages: two-digit suffixes, lexicographic vs numeric order
+	{"pkg1", "pkg2", "pkg3", "pkg4", "pkg5", "pkg6", "pkg7", "pkg8", "pkg9", "pkg10", "pkg11", "pkg1/sub"},
 }
 
 // GenPackages draws packages and interfaces.
